@@ -138,7 +138,7 @@ fn no_spurious(a: &Analysis, v: &mut Verdict, prop: &str) {
                 m.recs
                     .iter()
                     .enumerate()
-                    .any(|(i, x)| x.node == n && x.trace_id == r.trace_id && a.parent_id(&x.parent) == Some(r.parent_id) && !a.matched[i].is_empty())
+                    .any(|(i, x)| x.node == n && x.trace_id == r.trace_id && a.is_id_of(&x.parent, r.parent_id) == Some(true) && !a.matched[i].is_empty())
             })
             .unwrap_or(false);
         let (clause, sig, what) = if dup {
@@ -240,14 +240,24 @@ fn root_batches(a: &Analysis, c: usize) -> Vec<usize> {
 }
 
 pub fn c03(a: &Analysis, v: &mut Verdict) {
+    c03_core(a, v, "C03", false);
+}
+
+/// the cancelable-mode clauses, reported under `prop` (C03 itself, or the adapter properties
+/// C13/C14 for what the last poll recorded); `skip_inverted`: leave traces with a cross-ring cut
+/// inversion to C03 (finding D2)
+pub fn c03_core(a: &Analysis, v: &mut Verdict, prop: &str, skip_inverted: bool) {
     let m = a.model;
     if !m.cancelable() {
         return;
     }
-    no_spurious(a, v, "C03");
+    no_spurious(a, v, prop);
     let flushes = flush_ops(a);
     for (c, col) in m.collects.iter().enumerate() {
         if !col.sampled {
+            continue;
+        }
+        if skip_inverted && a.inversion(c).0 {
             continue;
         }
         let bs = batches_of_collect(a, c);
@@ -258,8 +268,8 @@ pub fn c03(a: &Analysis, v: &mut Verdict) {
                 for &b in &bs {
                     if a.hist.batches[b].step < start {
                         v.add(
-                            "C03",
-                            "C03.hold",
+                            prop,
+                            &format!("{}.hold", prop),
                             "before-root-finish".into(),
                             format!("a record of trace {:032x} was reported (batch {}) before its root span finished", col.trace_id, b),
                         );
@@ -269,8 +279,8 @@ pub fn c03(a: &Analysis, v: &mut Verdict) {
             _ => {
                 if !bs.is_empty() {
                     v.add(
-                        "C03",
-                        "C03.hold",
+                        prop,
+                        &format!("{}.hold", prop),
                         "root-unfinished".into(),
                         format!("records of trace {:032x} were reported although its root span never finished", col.trace_id),
                     );
@@ -301,8 +311,8 @@ pub fn c03(a: &Analysis, v: &mut Verdict) {
         if rb_by_f.len() != 1 || rb.len() != 1 {
             let straddle = cut_sig(a, c);
             v.add(
-                "C03",
-                "C03.single",
+                prop,
+                &format!("{}.single", prop),
                 format!("root-in-{}-batches:{}", rb.len().min(2), straddle),
                 format!(
                     "root of trace {:032x} finished uncancelled (op #{}) before flush #{} but was delivered in {} report calls ({} by the flush)",
@@ -329,8 +339,8 @@ pub fn c03(a: &Analysis, v: &mut Verdict) {
             if !ok {
                 let elsewhere = delivered_batch(a, i).is_some();
                 v.add(
-                    "C03",
-                    "C03.whole",
+                    prop,
+                    &format!("{}.whole", prop),
                     format!("{}:{}", if r.local { "local" } else { "span" }, cut_sig(a, c)),
                     format!(
                         "span n{} of trace {:032x} finished (op {}) before the root finished (op #{}) but is not in the root's report call{}",
@@ -346,8 +356,8 @@ pub fn c03(a: &Analysis, v: &mut Verdict) {
         for &b in &bs {
             if b > rbatch {
                 v.add(
-                    "C03",
-                    "C03.after",
+                    prop,
+                    &format!("{}.after", prop),
                     "late-record".into(),
                     format!("trace {:032x}: a record was reported in batch {} after the root's batch {}", col.trace_id, b, rbatch),
                 );
@@ -498,8 +508,9 @@ fn check_ctx_returns(a: &Analysis, v: &mut Verdict, prop: &str) {
                         format!("op {} returned sampled={}, expected {}", a.describe_op(o), g.2, e.sampled),
                     );
                 }
-                if let Some(id) = a.parent_id(&e.span) {
-                    if id != g.1 {
+                if a.is_id_of(&e.span, g.1) == Some(false) {
+                    let id = a.parent_id(&e.span).unwrap_or(0);
+                    {
                         v.add(
                             prop,
                             &format!("{}.ctx", prop),
@@ -1045,4 +1056,14 @@ pub fn c16(a: &Analysis, v: &mut Verdict) {
     check_ctx_returns(a, v, "C16");
     v.probe("non_recording_closures", nonrec);
     v.trigger = nonrec > 0;
+}
+
+pub fn check_ctx_returns_pub(a: &Analysis, v: &mut Verdict, prop: &str) {
+    check_ctx_returns(a, v, prop)
+}
+pub fn no_spurious_pub(a: &Analysis, v: &mut Verdict, prop: &str) {
+    no_spurious(a, v, prop)
+}
+pub fn presence_pub(a: &Analysis, v: &mut Verdict, prop: &str, clause: &str) {
+    presence(a, v, prop, clause, |_| true)
 }
